@@ -71,10 +71,16 @@ def run(n, s0, s1, s2, nf0, nf1, nf2, a0, b0, a1, b1, a2, b2, cs, ss, f1_exists,
         names = [FIELDS[a], FIELDS[b]][:nf]
         settings.append(NS(selector=SELECTORS[sel], auto_populated_fields=names))
     with untraced():
-        fields = {"f2": mk_field("f2", 9, False, 1)}
+        # a real MessageType (so that every accessor the validator may use -- .fields, .get_field -- is the real one) with
+        # a nested message `sub` whose leaf `sub.f1` WOULD qualify if nested names were allowed
+        sub_msg = wrappers.MessageType(message_pb=NS(name="Sub"), fields={"f1": mk_field("f1", 9, False, 1)},
+                                       nested_enums={}, nested_messages={})
+        sub_pb = NS(name="sub", type=11, type_name=".pkg.Sub", label=1,
+                    options=NS(Extensions={field_behavior_pb2.field_behavior: [], field_info_pb2.field_info: NS(format=0)}))
+        fields = {"f2": mk_field("f2", 9, False, 1), "sub": wrappers.Field(field_pb=sub_pb, message=sub_msg)}
         if f1_exists:
             fields["f1"] = mk_field("f1", f1_type, f1_required, f1_fmt)
-        msg = NS(fields=fields)
+        msg = wrappers.MessageType(message_pb=NS(name="Req"), fields=fields, nested_enums={}, nested_messages={})
         # real wrappers.Method objects (as in API.all_methods) over stand-in descriptors, so that every accessor of
         # Method (client_streaming, server_streaming, grpc_stub_type, ...) is the real one
         unary = wrappers.Method(method_pb=NS(name="A", client_streaming=False, server_streaming=False, input_type=".pkg.Req"),
